@@ -70,17 +70,27 @@ def main():
     try:
         early = c06_impl.build_early(job["case"])          # some events exist before the unrelated activity ...
         keep = prior_activity(job.get("prior") or {})
-        rec = c06_impl.run_case(job["case"], "v7c", early=early)   # ... the others are built after it, before initialize
+        case = dict(job["case"])
+        pilot = case.pop("pilot", None) or []
+        case["cmds"] = [list(c) for c in pilot] + case["cmds"]
+        rec = c06_impl.run_case(case, "v7c", early=early)   # ... the others are built after it, before initialize
+        # the run proper starts with the initialize after the pilot run (if any)
+        mk = next((m for m in rec["marks"] if m["cmd"] == len(pilot)), None)
+        if mk is None:
+            raise RuntimeError("the initialize of the run proper was not accepted")
+
+        def seg(k):
+            return rec[k][mk[k]:]
         # the process-independent part of the run
         parts = {
-            "trace": rec["trace"],
-            "deliveries": rec["dlv"],
-            "notifications": [n for n in rec["ntfs"] if n[0] in ("startrepl", "warmup", "endrepl")],
-            "observations": rec["obs"],
-            "draws": rec["draws"],
-            "scheduling": rec["outs"] if not job.get("drop_outs") else [o for o in rec["outs"] if o in ("acc", "ref")],
-            "cancelled": rec["canc"],
-            "statistics": [[x[0], x[1], x[2], x[3], x[4]] for x in rec["final_stats"]],
+            "trace": seg("trace"),
+            "deliveries": seg("dlv"),
+            "notifications": [n for n in seg("ntfs") if n[0] in ("startrepl", "warmup", "endrepl")],
+            "observations": seg("obs"),
+            "draws": seg("draws"),
+            "scheduling": seg("outs"),
+            "cancelled": seg("canc"),
+            "statistics": [[x["key"], x["kind"], x["getters"]] for x in (rec["reported"] or [])],
             "final": rec["snaps"][-1][1:] if rec["snaps"] else None,
         }
         digest = hashlib.sha256(json.dumps(parts, sort_keys=True).encode()).hexdigest()
